@@ -181,7 +181,8 @@ class GeminiClientProtocol(asyncio.Protocol):
                             break
                 try:
                     body = self.buffer.decode(charset)
-                except UnicodeDecodeError as e:
+                except (LookupError, ValueError) as e:
+                    # Undecodable body, or a charset label Python does not know
                     self.response_future.set_exception(e)
                     return
             else:
@@ -402,7 +403,8 @@ class TitanClientProtocol(asyncio.Protocol):
                             break
                 try:
                     body = self.buffer.decode(charset)
-                except UnicodeDecodeError as e:
+                except (LookupError, ValueError) as e:
+                    # Undecodable body, or a charset label Python does not know
                     self.response_future.set_exception(e)
                     return
             else:
